@@ -17,7 +17,11 @@ def path_multi(engine, ctx, params):
     for i, t in enumerate(params['history']):
         cs, _ = sym_chars(ctx, t, prefix='h%d_' % i)
         hist.append(cs); allch.append(cs)
-    res = parse_multi(it, fmt, hist)
+    try:
+        res = parse_multi(it, fmt, hist)
+    except RustPanic as p:
+        conc = [concretize(ctx, cs) for cs in hist]
+        return {'status': 'violation', 'kind': 'panic', 'fmt': params['fmt'], 'history': conc, 'message': 'parse_multi panics: ' + p.msg[:150], 'where': p.where[-60:], 'fns': list(it.fn_seen)}
     outs = res.items
     m = None
     bad = None
@@ -71,6 +75,10 @@ def path_lex(engine, ctx, params):
     return {'status': 'violation', 'kind': 'lex-history', 'fmt': params['fmt'], 'history': [c1, c2], 'message': 'lexical parse depends on an earlier parse', 'fns': list(it.fn_seen)}
 
 def confirm(v, oracle):
+    if v['kind'] == 'panic':
+        st, multi = oracle.ask('parse_multi', v['fmt'], '|'.join(hexs(c) for c in v['history']))
+        return {'confirmed': st == 'panic', 'why': 'no native panic', 'replay': {'op': 'parse_multi', 'args': [v['fmt'], '|'.join(hexs(c) for c in v['history'])], 'history': [show(c) for c in v['history']]},
+                'what': 'parse_multi(%r) panics (%s) while parsing each input alone does not' % ([show(c) for c in v['history']], multi)}
     if v['kind'] == 'history':
         st, multi = oracle.ask('parse_multi', v['fmt'], '|'.join(hexs(c) for c in v['history']))
         if st != 'ok': return {'confirmed': st == 'panic', 'replay': {'op': 'parse_multi', 'args': [v['fmt'], '|'.join(hexs(c) for c in v['history'])]}, 'what': 'parse_multi panics: %s' % multi}
@@ -87,6 +95,7 @@ def confirm(v, oracle):
     return {'confirmed': False, 'why': 'no native replay for lexical history (the interpreter found state carried in the format instance)'}
 
 def key_of(v):
+    if v['kind'] == 'panic': return 'panic@' + v.get('where', '').split('::')[-1]
     if v['kind'] == 'history':
         s = json.dumps([v['multi'], v['single']])
         kinds = (v['multi'][0] if v['multi'][0] == 'Err' else v['multi'][1][0], v['single'][0] if v['single'][0] == 'Err' else v['single'][1][0])
